@@ -138,6 +138,13 @@ class Ctx:
             self._np_rng = np.random.RandomState((self.seed * 1000003 + int(self.prop[1:])) % (2**32))
         return self._np_rng
 
+    def reseed(self, seed):
+        """Continue the same run with another stream of random choices (used by the change-directed extra exploration)."""
+        self.count('reseeded_runs')
+        self.rng = random.Random((int(seed) << 8) ^ int(self.prop[1:]))
+        import numpy as np
+        self._np_rng = np.random.RandomState((int(seed) * 1000003 + int(self.prop[1:])) % (2**32))
+
     @property
     def thorough(self):
         return self.tier == 'thorough'
@@ -412,6 +419,12 @@ class Ctx:
                 signature='%s/proof-broken' % self.prop, kind='theorem', theorem=', '.join(self.proof['broken']),
                 no_failing_input=True)
         wall = time.time() - self.t0
+        for lst in (self.trusted_base, self.assumptions, self.notes):
+            seen = []
+            for x in lst:
+                if x not in seen:
+                    seen.append(x)
+            lst[:] = seen
         cov = {
             'obligations': max(1, self.proof['obligations']),
             'discharged': self.proof['discharged'],
@@ -449,6 +462,52 @@ class Ctx:
 def load_module(prop):
     import importlib
     return importlib.import_module('harness.props.' + prop.lower())
+
+
+def source_digests(repo):
+    """sha1 of the ast dump (comments / layout ignored) of every skyllh/**/*.py of the tree under test."""
+    import ast
+    out = {}
+    base = os.path.join(repo, 'skyllh')
+    for root, dirs, files in os.walk(base):
+        dirs[:] = sorted(d for d in dirs if d != '__pycache__')
+        for fn in sorted(files):
+            if fn.endswith('.py'):
+                path = os.path.join(root, fn)
+                rel = os.path.relpath(path, repo)
+                try:
+                    with open(path) as f:
+                        out[rel] = hashlib.sha1(ast.dump(ast.parse(f.read())).encode()).hexdigest()[:16]
+                except (SyntaxError, OSError, UnicodeDecodeError):
+                    out[rel] = 'unparsable'
+    return out
+
+
+def source_drift(ctx):
+    """Change-directed exploration.  source_baseline.json (tools/mkbaseline.py, committed) holds the digests of the skyllh sources
+    the checks were last validated on (the pinned tree + the fix:/hook: commits).  When the tree under test differs from it, the
+    files that changed are recorded in the evidence and the harness explores with additional derived seeds (VERIF_DRIFT_SEEDS,
+    default 2): a change to the code is exactly the situation in which a class of inputs reached by only some seeds matters.
+    Never a verdict by itself; on the baseline tree nothing extra runs."""
+    try:
+        with open(os.path.join(VERIF, 'source_baseline.json')) as f:
+            base = json.load(f).get('files', {})
+    except (OSError, ValueError):
+        return []
+    if not base:
+        return []
+    cur = source_digests(REPO)
+    changed = sorted(k for k in set(base) | set(cur) if base.get(k) != cur.get(k))
+    if os.environ.get('VERIF_FORCE_DRIFT') == '1':
+        changed = changed or ['<forced by VERIF_FORCE_DRIFT>']
+    if not changed:
+        ctx.extra['source_drift'] = {'changed_files': [], 'extra_seeds': []}
+        return []
+    k = int(os.environ.get('VERIF_DRIFT_SEEDS', '2') or 0)
+    seeds = [ctx.seed + 1000003 * (i + 1) for i in range(k)]
+    ctx.extra['source_drift'] = {'changed_files': changed[:50], 'extra_seeds': seeds}
+    ctx.note('source differs from the validated baseline in %s: exploring with %d additional derived seed(s)' % (', '.join(changed[:8]), k))
+    return seeds
 
 
 def model_map_report(ctx, mod):
@@ -595,7 +654,13 @@ def main(argv=None):
             ctx.proof['build_ok'] = True
         run_known_findings(ctx, mod)
         model_map_report(ctx, mod)
+        extra_seeds = source_drift(ctx)
         mod.run(ctx)
+        for s2 in extra_seeds:
+            if ctx.violations or (time.time() - ctx.t0) > float(os.environ.get('VERIF_DRIFT_BUDGET_S', '600')):
+                break
+            ctx.reseed(s2)
+            mod.run(ctx)
         return ctx.finish()
     except MachineryError as e:
         print('MACHINERY-ERROR property=%s: %s' % (prop, e), flush=True)
